@@ -177,6 +177,31 @@ pub fn c07_q_e1_path_label<S: Src>(s: &mut S) {
     core::mem::forget(p);
 }
 
+/// thorough: three-point Manhattan path (an L or a straight run); the label lies on the first segment whatever follows
+pub fn c07_t_e1_path3_label<S: Src>(s: &mut S) {
+    let (x0, y0, d, e) = (s.i32() as Int, s.i32() as Int, s.i32() as Int, s.i32() as Int);
+    let horiz = s.bool();
+    let turn = s.bool();
+    let (x1, y1) = if horiz { (d, y0) } else { (x0, d) };
+    // second segment: perpendicular (turn) or continuing along the same axis
+    let (x2, y2) = if horiz != turn { (e, y1) } else { (x1, e) };
+    let w = s.u8() as usize;
+    vnote!(s, "path", "({},{})-({},{})-({},{}) w={}", x0, y0, x1, y1, x2, y2, w);
+    let p = Path { points: vec![Point::new(x0, y0), Point::new(x1, y1), Point::new(x2, y2)], width: w };
+    let loc = p.label_location();
+    match &loc {
+        Ok(l) => {
+            vcheck!(s, l.x >= x0.min(x1) && l.x <= x0.max(x1) && l.y >= y0.min(y1) && l.y <= y0.max(y1), "c07.e1 three-point path label lies on the path's first segment");
+        }
+        Err(_) => {
+            vcheck!(s, false, "c07.e1 a three-point path always has a label location");
+        }
+    }
+    vcover!(s, turn && horiz && x0 > x1, "L-shaped leftward path reachable");
+    core::mem::forget(loc);
+    core::mem::forget(p);
+}
+
 // ---- E2: shapes become GDSII elements with exactly their points ------------------------------------------------------
 /// an exporter whose library reference is never followed by the functions under test here
 fn exporter() -> GdsExporter<'static> {
@@ -430,6 +455,7 @@ harnesses! { k, "sel_raw_gds.rs";
     #[kani::unwind(7)] c07_x_e1_quad_label;
     c07_q_e1_rect_label;
     #[kani::unwind(4)] c07_q_e1_path_label;
+    #[kani::unwind(5)] c07_t_e1_path3_label;
     #[kani::stub(alloc::fmt::format, fmt_stub)] #[kani::unwind(7)] c07_q_e2_rect;
     #[kani::stub(alloc::fmt::format, fmt_stub)] #[kani::unwind(6)] c07_x_e2_poly3;
     #[kani::stub(alloc::fmt::format, fmt_stub)] #[kani::unwind(8)] c07_q_e2_path2;
